@@ -45,9 +45,18 @@ func (vs *ValueStruct) EncodedSize() uint32 {
 
 // DecodeValue decodes the provided buffer into the value structure.
 func (vs *ValueStruct) DecodeValue(buf []byte) {
+	if len(buf) == 0 {
+		*vs = ValueStruct{Version: vs.Version}
+		return
+	}
 	vs.Meta = buf[0]
 	var sz int
 	vs.ExpiresAt, sz = binary.Uvarint(buf[1:])
+	if sz <= 0 {
+		// truncated or overflowing varint: no expiry, no value (1+sz would index before buf)
+		vs.ExpiresAt, vs.Value = 0, nil
+		return
+	}
 	vs.Value = buf[1+sz:]
 }
 
